@@ -94,5 +94,35 @@ pub fn corr(ctx: &mut Ctx) {
             }
         }
     }
+    // ---- animated inputs: "between any two ... frames" - the frames are recompressed after the main image, each
+    // behind its own look at the clock; whatever k is, the output is an animation with the same frames ---------------
+    for _ in 0..(ctx.n / 6).max(6) {
+        let (mut case, _) = crate::corr_eval::apng_case_with(&mut rng, false);
+        case.opts.scale_16 = false;
+        if let Err(_) = case.opts.deflate { case.opts.deflate = Ok(8); }
+        let Ok(start) = decode(&case.input) else { continue };
+        verif::arm_deadline(None);
+        let _ = pool.install(|| run_case(&case.input, &case.opts));
+        let total = verif::disarm_deadline();
+        st.count("animated_cases");
+        st.add("deadline_checks_untimed", total);
+        for k in 0..=total.min(40) {
+            verif::arm_deadline(Some(k));
+            let out = pool.install(|| run_case(&case.input, &case.opts));
+            verif::disarm_deadline();
+            st.count("animated_runs");
+            let c2 = Case { img: case.img.clone(), class: format!("{} expire_at={}", case.class, k), enc: case.enc.clone(), input: case.input.clone(), opts: case.opts.clone() };
+            judge("C02", &c2, &out, &mut st);
+            judge("C04", &c2, &out, &mut st);
+            match &out {
+                Outcome::Ok(bytes) => match decode(bytes) {
+                    Ok(d) => crate::meta_oracle::judge_c10(&c2, &start, &d, &mut st),
+                    Err(e) => st.fail("undecodable-output", format!("output of an animated input is not decodable at expiry position {}: {}", k, e), c2.replay_json()),
+                },
+                Outcome::Err(_) => st.count("animated_err"),
+                Outcome::Panic => st.fail("panic", format!("panic at expiry position {}", k), c2.replay_json()),
+            }
+        }
+    }
     ctx.write_stats(&st);
 }
